@@ -237,67 +237,41 @@ func (t *tl) addAll(o *tl) {
 	}
 }
 
-func (t *tl) addAllArray(vs []val) {
+// addAllArray gives the list a fresh array holding vs
+func (t *tl) addAllArray(vs []val) { t.addAllRaw(rawOf(t.k, vs)) }
+
+// addAllRaw: AddAllArray(raw), raw being an array of the list's element type
+func (t *tl) addAllRaw(raw interface{}) {
 	switch t.k {
 	case kInt:
-		a := make([]int, len(vs))
-		for i, v := range vs {
-			a[i] = int(v.i)
-		}
-		t.il.AddAllArray(a)
+		t.il.AddAllArray(raw.([]int))
 	case kLong:
-		a := make([]int64, len(vs))
-		for i, v := range vs {
-			a[i] = v.i
-		}
-		t.ll.AddAllArray(a)
+		t.ll.AddAllArray(raw.([]int64))
 	case kFloat:
-		a := make([]float32, len(vs))
-		for i, v := range vs {
-			a[i] = float32(v.f)
-		}
-		t.fl.AddAllArray(a)
+		t.fl.AddAllArray(raw.([]float32))
 	case kDouble:
-		a := make([]float64, len(vs))
-		for i, v := range vs {
-			a[i] = v.f
-		}
-		t.dl.AddAllArray(a)
+		t.dl.AddAllArray(raw.([]float64))
 	default:
-		a := make([]string, len(vs))
-		for i, v := range vs {
-			a[i] = v.s
-		}
-		t.sl.AddAllArray(a)
+		t.sl.AddAllArray(raw.([]string))
 	}
 }
 
-func (t *tl) toArray() []val {
-	var out []val
+// rawArray: the very slice ToArray returned
+func (t *tl) rawArray() interface{} {
 	switch t.k {
 	case kInt:
-		for _, x := range t.il.ToArray() {
-			out = append(out, val{i: int64(x)})
-		}
+		return t.il.ToArray()
 	case kLong:
-		for _, x := range t.ll.ToArray() {
-			out = append(out, val{i: x})
-		}
+		return t.ll.ToArray()
 	case kFloat:
-		for _, x := range t.fl.ToArray() {
-			out = append(out, val{f: float64(x)})
-		}
+		return t.fl.ToArray()
 	case kDouble:
-		for _, x := range t.dl.ToArray() {
-			out = append(out, val{f: x})
-		}
-	default:
-		for _, x := range t.sl.ToArray() {
-			out = append(out, val{s: x})
-		}
+		return t.dl.ToArray()
 	}
-	return out
+	return t.sl.ToArray()
 }
+
+func (t *tl) toArray() []val { return rawVals(t.rawArray()) }
 
 // ---- the accessors of the OTHER element types, on small integers ----------
 // Every Add*/Set*/Get* of AnyList exists on every list; for an integer n with
